@@ -23,7 +23,9 @@ RULE = ("case = (quantizer configuration, input tensor, cotangent). Deterministi
 ASSUMPTIONS = [
     "checks run under TF_USE_LEGACY_KERAS=1 (tf_keras), float32, eager GradientTape",
     "gradient compared with cotangent*s'(x) within 1e-5*max(1,|cotangent|) absolute "
-    "(measured worst error on the unchanged tree < 3e-7, see by_class err<=... labels)",
+    "(measured on the unchanged tree: worst absolute error 1.1e-6, from the 1-tanh^2 "
+    "cancellation of unscaled binary/ternary with cotangent 3; <= 2.4e-7 elsewhere; the "
+    "by_class labels err<=1e-7 / err<=1e-6 / err<=1e-5* give the per-run distribution)",
     "clip edges use TensorFlow's clip_by_value convention (gradient passes at the edge)",
     "elements closer to a kink than 8 float32 ulps of its location (16 for tanh/sigmoid/"
     "hswish) or 1e-3 of the quantization step are compared against both one-sided "
@@ -39,7 +41,7 @@ ASSUMPTIONS = [
     "binary(use_stochastic_rounding=True) is outside the domain (inference path raises, see C08)",
     "inputs |x| <= 1e30 (2*max|x| must not overflow float32 in the 'auto' scale)",
 ]
-BUDGET_S = {"quick": 50, "thorough": 800}
+BUDGET_S = {"quick": 45, "thorough": 800}
 _CLS = ["quantized_bits", "quantized_linear", "quantized_relu", "quantized_po2",
         "quantized_relu_po2", "binary", "ternary", "stochastic_binary", "stochastic_ternary",
         "quantized_tanh", "quantized_sigmoid", "quantized_hswish", "quantized_ulaw", "bernoulli"]
@@ -269,8 +271,11 @@ def run(ctx):
   lat = G.lattice(ctx.tier)
   ctx.info["lattice_size"] = len(lat) if ctx.idx == 0 else 0
   for cfg, layout in ctx.shard(lat):
-    if ctx.time_left() <= 0:
+    if ctx.time_left() <= 0.5 * ctx.budget_s:
+      # overloaded machine: keep half of the budget for the random part (the
+      # lattice is in pseudo-random order, so the part done covers all classes)
       ctx.labels["inconclusive_time"] += 1
+      ctx.info["lattice_truncated"] = 1
       break
     case = G.probe(cfg, layout)
     fails, labels, nt = evaluate(case)
